@@ -12,7 +12,7 @@
    `ksel` below; the coded checker used on observations of the real code is
    `ksel_code` of Model_C04.v. *)
 From Coq Require Import List NArith ZArith QArith Bool Arith Sorted Permutation.
-From Semadb Require Import Bytes U64 KeyLayout Model_C19.
+From Semadb Require Import Bytes U64 KeyLayout Model_C19 Value Obs Dyadic Model_C01 Model_C02 Model_C04.
 Import ListNotations.
 
 (* ------------------------------------------------------------------------ *)
@@ -97,6 +97,38 @@ Definition ksel_split {A : Type} (d : A -> Q) (k : nat) (cands res : list A) : P
     length res = Nat.min k (length cands) /\
     nondecreasing (map d res) /\
     (forall r c, In r res -> In c dropped -> (d r <= d c)%Q).
+
+
+(* ---------- what the coded checker `ksel_code` of Model_C04.v guarantees ---------- *)
+
+(* the distances of the rows that have one *)
+Definition row_dists (rows : list row) : list Q :=
+  flat_map (fun r => match row_dist r with Some d => [d] | None => [] end) rows.
+
+(* what verdict 0 of ksel_code guarantees about the reported rows *)
+Definition rows_ksel (k : N) (cs : list cand) (rows : list row) : Prop :=
+  (* no id twice *)
+  NoDup (map r_id rows) /\
+  (* every row is a candidate and reports a non-NaN distance that the candidate's judgement accepts *)
+  (forall r, In r rows -> exists c q, In c cs /\ c_id c = r_id r /\ find_cand (r_id r) cs = Some c /\
+                                   row_dist r = Some q /\ dist_ok c q = true) /\
+  (* as many rows as the limit allows *)
+  N.of_nat (length rows) = N.min k (N.of_nat (length cs)) /\
+  (* in non-decreasing distance order *)
+  nondecreasing (row_dists rows) /\
+  (* no exactly-judged candidate that was left out is strictly closer than a reported row *)
+  (forall c q, In c cs -> ~ In (c_id c) (map r_id rows) -> c_spec c = DExact q ->
+               forall r dr, In r rows -> row_dist r = Some dr -> (dr <= q)%Q).
+
+(* link with `ksel` when every candidate is judged exactly *)
+Definition cand_q (c : cand) : Q := match c_spec c with DExact q => q | _ => 0%Q end.
+Definition all_exact (cs : list cand) : Prop := forall c, In c cs -> exists q, c_spec c = DExact q.
+(* the candidates the rows name *)
+Definition sel_of (cs : list cand) (rows : list row) : list cand :=
+  flat_map (fun r => match find_cand (r_id r) cs with Some c => [c] | None => [] end) rows.
+Definition row_matches (cs : list cand) (c : cand) (r : row) : Prop :=
+  In c cs /\ c_id c = r_id r /\ exists q, row_dist r = Some q /\ (q == cand_q c)%Q.
+
 
 (* ------------------------------------------------------------------------ *)
 (* (b) ItemCache.ForEach: which ids are enumerated                           *)
@@ -190,6 +222,31 @@ Definition binary_keys (items : list (N * bq_keys)) : list bytes :=
 
 (* IdFromKey of the pinned tree (before commit 02e68e0, defect F3) *)
 Definition bq_idfromkey_suffixes_v0 : list N := [suf_v].
+
+
+(* ---------- specification vocabulary for the enumeration theorems ---------- *)
+
+(* a bucket key yields this id *)
+Definition yields (accepted : list N) (keys : list bytes) (id : N) : Prop :=
+  exists k, In k keys /\ id_from_key accepted k = Some id.
+
+Definition foreign (k : bytes) : Prop := forall s, node_id_from_key k s = None.
+Definition ids_ok (ids : list N) : Prop := forall id, In id ids -> id < two64.   (* ids are uint64 *)
+
+(* a bucket = the point keys in any order, plus keys that are not node keys
+   (the persisted threshold / centroids) *)
+Definition bucket_of (keys point_keys : list bytes) : Prop :=
+  exists other, Permutation keys (point_keys ++ other) /\ forall k, In k other -> foreign k.
+
+(* the cache is in sync with the bucket (what holds after Flush once every item has been loaded) *)
+Record in_sync {V} (accepted : list N) (read : N -> option V) (keys : list bytes) (c : cache V) : Prop := {
+  sync_nodup : NoDup (cache_ids c);                                      (* ic.items is a map *)
+  sync_live : forall id e, In (id, e) c -> ce_deleted e = false;         (* Flush dropped the deleted entries *)
+  sync_val : forall id e, In (id, e) c -> read id = Some (ce_val e);     (* ReadFrom decodes what was written *)
+  sync_all : forall id, yields accepted keys id -> In id (cache_ids c);  (* everything has been loaded *)
+  sync_keys : forall id, In id (cache_ids c) -> yields accepted keys id  (* enumeration invariant of section 3 *)
+}.
+
 
 (* ---------- the key-level state machine of a vector store ---------- *)
 
